@@ -2,7 +2,6 @@ package main
 
 // Lemmas and program-wide obligations.
 
-func (x *Exec) loadDirectives() {}
 
 // lemmaObligations turns the lemmas tagged with prop into obligations: the
 // lemma's formula must be valid (its negation unsatisfiable).
@@ -34,4 +33,3 @@ func (x *Exec) lemmaObligations(prop string) {
 	}
 }
 
-func (x *Exec) globalObligations(prop string) {}
